@@ -15,7 +15,7 @@ import (
 	"time"
 )
 
-var autoTicks, autoTicksDone, autoTaken atomic.Int64
+var autoTicks, autoTicksDone, autoTaken, autoPublished atomic.Int64
 
 func init() {
 	HookAuto = func(name string) {
@@ -26,6 +26,8 @@ func init() {
 			autoTicksDone.Add(1)
 		case "snapshot.take.begin":
 			autoTaken.Add(1)
+		case "snapshot.take.manifest.renamed":
+			autoPublished.Add(1)
 		}
 	}
 }
@@ -89,6 +91,12 @@ func RunAutoTrialChild(w *bufio.Writer, spec string) error {
 }
 
 func autoTrialBody(w *bufio.Writer, id string, thr uint64, batch [][]string) {
+	for _, c := range batch {
+		if len(c) == 1 && c[0] == "@wait" {
+			autoTrialPhases(w, id, thr, batch)
+			return
+		}
+	}
 	for attempt := 0; attempt < 8; attempt++ {
 		dir, err := os.MkdirTemp(scratchBase(), "vha")
 		if err != nil {
@@ -141,6 +149,73 @@ func autoTrialBody(w *bufio.Writer, id string, thr uint64, batch [][]string) {
 	fmt.Fprintf(w, "U %s auto-trial-not-settled\n", id)
 }
 
+// autoTrialPhases: a trial in several phases separated by ["@wait"] (two ticks each). The line reports the last phase:
+// n = writes since the last snapshot that was PUBLISHED (a tick that finds nothing new publishes nothing and must not
+// forget the writes it has seen), fired = a snapshot was published within two ticks of the last phase.
+func autoTrialPhases(w *bufio.Writer, id string, thr uint64, batch [][]string) {
+	var phases [][][]string
+	cur := [][]string{}
+	for _, c := range batch {
+		if len(c) == 1 && c[0] == "@wait" {
+			phases = append(phases, cur)
+			cur = [][]string{}
+			continue
+		}
+		cur = append(cur, c)
+	}
+	phases = append(phases, cur)
+	for attempt := 0; attempt < 8; attempt++ {
+		dir, err := os.MkdirTemp(scratchBase(), "vha")
+		if err != nil {
+			return
+		}
+		in, err := NewInst(Opts{DataDir: dir, SnapThreshold: thr, SnapInterval: 40 * time.Millisecond})
+		if err != nil {
+			os.RemoveAll(dir)
+			return
+		}
+		ok := func() bool {
+			since := 0
+			for i, ph := range phases {
+				t0 := autoTicksDone.Load()
+				if !waitCount(&autoTicksDone, t0+1, 2*time.Second) {
+					return false
+				}
+				startTicks := autoTicks.Load()
+				pub0 := autoPublished.Load()
+				for _, c := range ph {
+					if r := in.Exec(nil, c); r.Kind != "ok" {
+						return false
+					}
+					since += autoChanges(c)
+				}
+				if autoTicks.Load() != startTicks {
+					return false // a tick fell inside the phase: try again
+				}
+				d0 := autoTicksDone.Load()
+				if !waitCount(&autoTicksDone, d0+2, 2*time.Second) {
+					return false
+				}
+				published := autoPublished.Load() > pub0
+				if i == len(phases)-1 {
+					fmt.Fprintf(w, "S %s %d %d %s\n", id, thr, since, b01(published))
+					return true
+				}
+				if published {
+					since = 0
+				}
+			}
+			return false
+		}()
+		in.S.ShutDown()
+		os.RemoveAll(dir)
+		if ok {
+			return
+		}
+	}
+	fmt.Fprintf(w, "U %s auto-trial-not-settled\n", id)
+}
+
 // autoChanges: how many times SetValues' loop body runs for the command (one per key written)
 func autoChanges(c []string) int {
 	switch c[0] {
@@ -167,6 +242,14 @@ func runAutoTrials(w *bufio.Writer, tier string) {
 	runAutoTrial(w, "auto.mset2plus2", thr, [][]string{{"mset", "a", "1", "b", "2"}, {"mset", "c", "1", "d", "2"}})
 	runAutoTrial(w, "auto.mset3", thr, [][]string{{"mset", "a", "1", "b", "2", "c", "3"}})
 	runAutoTrial(w, "auto.set1mset2", thr, [][]string{{"set", "a", "1"}, {"mset", "b", "1", "c", "2"}})
+	// a tick that finds the dataset unchanged ("nothing new to snapshot") must not forget the writes it has seen:
+	// three writes, a snapshot; the same three values again, a tick that publishes nothing; one new write
+	wait := []string{"@wait"}
+	runAutoTrial(w, "auto.idem3.new1", thr, [][]string{{"set", "a", "1"}, {"set", "b", "1"}, {"set", "c", "1"}, wait,
+		{"set", "a", "1"}, {"set", "b", "1"}, {"set", "c", "1"}, wait, {"set", "d", "1"}})
+	runAutoTrial(w, "auto.snap3.new1", thr, [][]string{{"set", "a", "1"}, {"set", "b", "1"}, {"set", "c", "1"}, wait, {"set", "d", "1"}})
+	runAutoTrial(w, "auto.idem2.new1", thr, [][]string{{"set", "a", "1"}, {"set", "b", "1"}, {"set", "c", "1"}, wait,
+		{"set", "a", "1"}, {"set", "b", "1"}, wait, {"set", "d", "1"}})
 	if tier == "thorough" {
 		for _, t := range []uint64{1, 2, 5} {
 			for n := 1; n <= int(t)+2; n++ {
